@@ -119,7 +119,7 @@ def check(ctx):
             if nm == "gen_rsa_pair":
                 gen[v] = ("rsa", args[0].deref().v)
             elif nm == "gen_ec_pair":
-                m = re.search(r"Nid\((\d+)_i32\)", repr(args[0].deref()))
+                m = re.search(r"Nid\((\d+)_i32\)", repr(args[0].deref())) or re.search(r"Nid\[int\((\d+)\)\]", repr(args[0].deref()))
                 gen[v] = ("ec", int(m.group(1)) if m else None)
             elif nm in ("gen_ed25519_pair", "gen_ed448_pair"):
                 gen[v] = (nm, None)
